@@ -211,7 +211,7 @@ def run_case(desc, ctx):
     has_attrs = any(desc["attrs"][k] for k in desc["attrs"])
     ctx.nontrivial(has_attrs or desc["lays"][0]["container"] != "da" or fam == "cross" or M.is_rotator(cls))
     r = call(ctx, "fit_raises", fit, disc=disc, refuse=(RuntimeError, ValueError),
-             refuse_if=lambda e: "did not converge" in str(e) or (desc["nan_features"] and "less than or equal to the rank" in str(e)))
+             refuse_if=lambda e: "did not converge" in str(e) or (desc["nan_features"] and ("less than or equal to the rank" in str(e) or "n_components must be less" in str(e))))
     if isinstance(r, Failed):
         return
     model = get_model()
